@@ -17,6 +17,7 @@ instance), with what the value-formula harness does not have:
     marker bytes written on entry/exit of every function; the expected output and variable values come from a
     direct LIFO interpretation of the generated program.
 """
+
 from __future__ import annotations
 
 import collections
@@ -82,7 +83,9 @@ class Program:
     max_ops: int = 2_000_000
     group: str = 'pointer macros'
     variant: str = ''  # distinguishes several applications of one macro
-    candidate: str = ''  # non-empty: a known disagreement between documentation and behaviour that is REPORTED (evidence: candidate_findings), not counted
+    candidate: str = (
+        ''  # non-empty: a known disagreement between documentation and behaviour that is REPORTED (evidence: candidate_findings), not counted
+    )
 
 
 def _t(x: WText, w: int) -> str:
@@ -282,7 +285,10 @@ class PtrHarness(Harness):
             broken.sort()
             names = [k for k, a in self.labels.items() if any(a // w <= x <= a // w + 1 for x in broken[:4])][:3]
             a = broken[0]
-            return f'changed memory outside its destinations: words {[hex(x) for x in broken[:4]]} {names}: word {a:#x} {mem.old[a]:#x} -> {mem.get(a, 0):#x}'
+            return (
+                f'changed memory outside its destinations: words {[hex(x) for x in broken[:4]]} {names}: '
+                f'word {a:#x} {mem.old[a]:#x} -> {mem.get(a, 0):#x}'
+            )
         nb = len(self.out_bits)
         out_bytes = bytes(sum((1 << j) for j in range(8) if self.out_bits[i + j]) for i in range(0, nb - nb % 8, 8))
         if out_bytes != cs.output or nb % 8:
@@ -302,18 +308,37 @@ def check_program(p: Program, w: int, tier: str, seed: int) -> Tuple[int, int, L
         try:
             h = PtrHarness(p, w, Path(tds))
         except Exception as e:
-            return 0, 0, [Violation(f'bounded:{p.name}.harness_assembles', f'{tag} (w={w}): the harness program does not assemble / start: {type(e).__name__}: {str(e)[:300]}', dict(call=_t(p.call, w), w=w), True, key=f'{p.name}:assemble')]
+            return (
+                0,
+                0,
+                [
+                    Violation(
+                        f'bounded:{p.name}.harness_assembles',
+                        f'{tag} (w={w}): the harness program does not assemble / start: {type(e).__name__}: {str(e)[:300]}',
+                        dict(call=_t(p.call, w), w=w),
+                        True,
+                        key=f'{p.name}:assemble',
+                    )
+                ],
+            )
         for cs in p.cases(h, rng, tier):
             why = h.execute(cs)
             evals += 1
             distinct.add(repr(sorted(cs.info.items())))
             if why:
-                call = _t(p.call, w)
-                short = call if len(call) < 160 else call[:160] + ' ...'
+                call = ' ; '.join(x.strip() for x in _t(p.call, w).split('\n'))
+                short = call if len(call) < 200 else call[:200] + ' ...'
                 v = Violation(
                     f'bounded:{p.name}.contract',
                     f'{short} (w={w}) on {cs.info}: {why}   [doc: {p.doc}]',
-                    dict(program=tag, w=w, operands=cs.info, pokes=cs.pokes, source=h.source if len(h.source) < 6000 else h.source[:6000] + '...', executions_before=evals - 1),
+                    dict(
+                        program=tag,
+                        w=w,
+                        operands=cs.info,
+                        pokes=cs.pokes,
+                        source=h.source if len(h.source) < 6000 else h.source[:6000] + '...',
+                        executions_before=evals - 1,
+                    ),
                     True,
                     key=f'{p.name}:{why.split(" ")[0]}',
                 )
@@ -331,10 +356,24 @@ def _one(idx: int):
     except Exception as e:  # a crash of the harness itself is reported as such (not as a library defect)
         import traceback
 
-        return 0, 0, [Violation(f'bounded:{p.name}.harness', f'{p.name} (w={w}): harness error {type(e).__name__}: {e}', dict(trace=traceback.format_exc()[-800:]), False, key=f'{p.name}:harness')]
+        return (
+            0,
+            0,
+            [
+                Violation(
+                    f'bounded:{p.name}.harness',
+                    f'{p.name} (w={w}): harness error {type(e).__name__}: {e}',
+                    dict(trace=traceback.format_exc()[-800:]),
+                    False,
+                    key=f'{p.name}:harness',
+                )
+            ],
+        )
 
 
-def run_programs(rep: Report, programs: List[Program], tier: str, seed: int, prop: str, widths: Callable[[Program], Sequence[int]], procs: int = 16) -> None:
+def run_programs(
+    rep: Report, programs: List[Program], tier: str, seed: int, prop: str, widths: Callable[[Program], Sequence[int]], procs: int = 16
+) -> None:
     import multiprocessing as mp
 
     global _JOBS
@@ -356,11 +395,19 @@ def run_programs(rep: Report, programs: List[Program], tier: str, seed: int, pro
         names.setdefault(p.group, set()).add(p.name)
         for v in viols:
             if p.candidate and not v.obligation.endswith('.harness'):
-                rep.extra.setdefault('candidate_findings', []).append(dict(program=p.name, variant=p.variant, w=w, note=p.candidate, observed=v.what))
+                rep.extra.setdefault('candidate_findings', []).append(
+                    dict(program=p.name, variant=p.variant, w=w, note=p.candidate, observed=v.what)
+                )
             else:
                 rep.violation(v)
     for g, (ev, di, n) in per_group.items():
-        rep.add_bounded(f'{prop}: {g}', f'{n} assembled programs ({len(names[g])} macros / families), widths {sorted(ws[g])}; every execution re-uses the assembled instance in the state the previous one left; see the module doc of bounded/stl_ptr.py and contracts/fj/pointers.py for the operand domains', ev, di)
+        rep.add_bounded(
+            f'{prop}: {g}',
+            f'{n} assembled programs ({len(names[g])} macros / families), widths {sorted(ws[g])}; every execution re-uses the assembled '
+            'instance in the state the previous one left; see the module doc of bounded/stl_ptr.py and contracts/fj/pointers.py for the operand domains',
+            ev,
+            di,
+        )
     rep.extra['macros_under_contract'] = sorted({p.name for p in programs})
 
 
